@@ -43,6 +43,9 @@ func TestAll(t *testing.T) {
 	if Timeout() != -1 || Cancel() != 7 || CancelSelect() != 3 || AfterFunc() != 5 {
 		t.Fatal("timers / context")
 	}
+	if got := IdleStream(4); !reflect.DeepEqual(got, []int{0, 1, 2, 3}) || Ticks() != 3 {
+		t.Fatal("IdleStream / Ticks", got)
+	}
 	if Misc(3) != 11 {
 		t.Fatal("Misc", Misc(3))
 	}
